@@ -274,6 +274,29 @@ func c07Run(c *mon.Ctx, csAny any) {
 			c.Fail(fmt.Sprintf("an encoding of %x returned earlier changed after the scalar was modified and encoded again", v), "scalar-encode-not-retained", nil)
 		}
 
+		// what was handed out stays what it was while other scalars are serialised and while the caller appends to the slices
+		// it holds (s now holds v+1)
+		{
+			var ks keptSet
+
+			for _, x := range []*secp256k1.Scalar{s, mon.Scal(v), s} {
+				ks.keep("Scalar.Encode", x.Encode(), "")
+				ks.keep("Scalar.Hex", nil, x.Hex())
+
+				if b, err := x.MarshalBinary(); err == nil {
+					ks.keep("Scalar.MarshalBinary", b, "")
+				}
+			}
+
+			c.Eval(9)
+
+			if ks.l[3].want != string(want) || ks.l[4].want != mon.H(want) {
+				c.Fail(fmt.Sprintf("Encode=%s Hex=%s want %s", mon.H(ks.l[3].b), ks.l[4].want, mon.H(want)), "scalar-encode-bytes", nil)
+			}
+
+			ks.check(c, "scalar-encode-output-changed-later")
+		}
+
 		if v.BitLen() > 1 {
 			c.Seen("encode", cs.In)
 		}
